@@ -61,8 +61,8 @@ def run(ctx, chk):
                         "clean-up / end-of-day), e.g. through an early error return", "every exit after completion passes the idle test",
                         f.sp(P))
         # failure of end_of_day is propagated
-        prop = [(bb, x) for bb, x in f.ret_writes() if f.classify_ret(x) in ("propagate", "err") and
-                any(y[0] == "call" and y[1] == FEIG + "end_of_day" for y in walk(x))]
+        prop = [(bb, x) for bb, x in f.ret_writes() if (f.classify_ret(x) in ("propagate", "err") and
+                any(y[0] == "call" and y[1] == FEIG + "end_of_day" for y in walk(x))) or f.hands_on(x, FEIG + "end_of_day")]
         chk.require(len(prop) >= 1, "C19/eod-failure-reported", name,
                     "a failing end_of_day is not reported to the caller", "`?` on end_of_day", f.sp(ebb))
         # the false edge never reaches an EndOfDay exchange
